@@ -128,7 +128,7 @@ def run(ctx):
         proj = d.get("project", ["?", "", "", "", ""])
         kinds[proj[0]] += 1
         for t in (proj[1].split(",") if len(proj) > 1 and proj[1] else []):
-            if proj[0] in ("template", "random-kinds", "import-rule", "early-diagnostic", "late-diagnostic", "lookup-visibility", "c16-world"):
+            if proj[0] in ("template", "random-kinds", "import-rule", "early-diagnostic", "late-diagnostic", "entry-point", "lookup-visibility", "c16-world"):
                 tpl_tags[t] += 1
             if t.startswith("shape=") or t in ("generics", "ill-typed", "multi-file"):
                 tags[t] += 1
